@@ -810,8 +810,11 @@ mod imp {
     }
 
     fn mk_frame(id: u64, notify: bool, query: &[u8], body: &Value) -> Vec<u8> {
-        let h = SpecHeader { spec: oracle::SPEC, version: 1, notify: notify as u8, id, query_format: 1, body_format: 2, ec: 0, ..Default::default() };
-        oracle::frame(h, query, &serde_json::to_vec(body).unwrap())
+        let b = serde_json::to_vec(body).unwrap();
+        // the notify flag is a byte: ANY non-zero value marks a server push (1 mostly; 2, 0x80 and 255 now and then)
+        let flag = if notify { [1u8, 1, 1, 2, 0x80, 255][((id as usize) ^ b.len()) % 6] } else { 0 };
+        let h = SpecHeader { spec: oracle::SPEC, version: 1, notify: flag, id, query_format: 1, body_format: 2, ec: 0, ..Default::default() };
+        oracle::frame(h, query, &b)
     }
 
     fn issue(conn: &Conn, ctx: &Ctx, scn: &Scn, tokens: &[String], rng: &mut Rng) {
